@@ -265,9 +265,9 @@ def _real_spec(d):
             return t.name if t.kind in "biuf" else "O"
         if isinstance(t, _ScalarMeta):
             return t._dt.name
-        if t is _pyfloat or getattr(t, "__name__", "") == "float":
+        if t is _pyfloat or getattr(t, "__name__", "") in ("float", "SymFloat"):
             return "<f8"
-        if t is _pyint or getattr(t, "__name__", "") == "int":
+        if t is _pyint or getattr(t, "__name__", "") in ("int", "SymInt"):
             return "<i8"
         return t
     try:
